@@ -777,6 +777,9 @@ impl ValveServer {
             }
         };
         self.used_transport.push((kind, self.last_transport));
+        if self.last_transport == "split-compressed" {
+            cx.w.stats.probe("compressed_split_reply");
+        }
         if frags.len() > 1 {
             cx.w.stats.probe("split_reply");
             if frags.len() >= 6 {
